@@ -3,7 +3,8 @@
 import itertools
 import json
 
-from py_gql import graphql_blocking
+from py_gql import build_schema, graphql_blocking
+from py_gql.sdl import SchemaDirective
 from py_gql.exc import (
     CoercionError,
     InvalidValue,
@@ -28,7 +29,10 @@ THEOREMS = [
     "C07_nonnull_never_null", "C07_routes_agree", "C07_arg_routes_agree",
     "C07_complete", "C07_rejects_var", "C07_rejects_lit", "C07_absent_omitted",
     "C07_required_present", "C07_total", "C07_rejects_foreign_kind_refuted", "C07_foreign_kind_gap",
-    "C07_example",
+    "C07_rejects_var_exact", "C07_rejects_lit_exact", "C07_no_other_leniency", "C07_lenient_witnesses",
+    "C07_total_lit", "C07_total_args", "C07_total_vars", "C07_total_request",
+    "C07_directive_args_sound", "C07_directive_args_total", "C07_skip_if_is_boolean",
+    "C07_usage_from_rule24", "C07_example",
 ]
 AXIOMS_OK = []
 RUN_MODULE = "Run.C07run Exec.CoerceModel"
@@ -55,7 +59,9 @@ RULE = ("(type, value) pairs: every wrapper shape to depth 3 over the 5 specifie
         "node on an interface / union position whose concrete types declare the field with their own "
         "defaults, extra nullable arguments and python names, objects of several concrete types "
         "returned in varying order, each resolver's kwargs compared with coerce_argument_values for "
-        "that type's own definition; non-trivial = the type has a "
+        "that type's own definition; requests with @skip / @include (literal, variable, missing, null, "
+        "ill-typed `if`) and a custom directive whose arguments are read through "
+        "info.get_directive_arguments and, written in SDL, through a schema directive; non-trivial = the type has a "
         "wrapper, enum or input object, or the value is a boundary / wrong one; distinct = distinct "
         "(schema, type or argument definitions, value / request text, variables)")
 
@@ -91,6 +97,16 @@ def _built_abs(case):
         if len(_BUILT) > 400:
             _BUILT.clear()
         b = _BUILT[key] = G.BuiltAbs(case["schema"], case["iface_args"], case["impls"])
+    return b
+
+
+def _built_dir(case):
+    key = json.dumps(["dir", case["schema"], case["cdefs"]], sort_keys=True)
+    b = _BUILT.get(key)
+    if b is None:
+        if len(_BUILT) > 400:
+            _BUILT.clear()
+        b = _BUILT[key] = G.BuiltDir(case["schema"], case["cdefs"])
     return b
 
 
@@ -168,6 +184,28 @@ def corpus():
                 out.append({"kind": "abs", "schema": sd, "iface_args": ia, "impls": impls, "pos": pos,
                             "order": order, "vardefs": vd, "call": call, "raw": raw,
                             "label": "corpus-abstract"})
+    # directive arguments: @skip / @include through _skip_selection, @custom through
+    # info.get_directive_arguments and as a schema directive
+    cd = [{"name": "a", "py": "a_py", "type": G.N("Int"), "default": [3]},
+          {"name": "c", "py": "c", "type": G.N("Color"), "default": None},
+          {"name": "p", "py": "p_py", "type": G.N("Point"), "default": None}]
+    for vd, dirs, raw in (
+            ("", ["@custom(a: 2147483647, c: RED, p: {x: 1})"], {}),
+            ("", ["@custom"], {}), ("", [], {}),
+            ("", ["@skip(if: false)", "@custom(c: BLUE)", "@include(if: true)"], {}),
+            ("", ["@skip(if: true)", "@custom(c: BLUE)"], {}),
+            ("", ["@include(if: false)"], {}),
+            ("($s: Boolean!, $p: Point)", ["@skip(if: $s)", "@custom(p: $p)"], {"s": False, "p": {"x": 2}}),
+            ("($s: Boolean!)", ["@include(if: $s)"], {"s": False}),
+            ("($s: Boolean = true)", ["@skip(if: $s)"], {"s": None}),       # C07-03 at a directive
+            ("($s: Boolean = true)", ["@skip(if: $s)"], {}),
+            ("", ["@custom(a: 2147483648)"], {}), ("", ["@custom(c: NOPE)"], {}),
+            ("", ["@skip(if: true)", "@skip(if: false)"], {}), ("", ["@skip(if: false)", "@skip(if: true)"], {}),
+            ("", ["@custom(a: 1)", "@custom(a: 2)"], {}),
+            ("", ["@skip(if: 1)"], {}), ("", ["@skip"], {})):
+        for pos in ("root", "nested"):
+            out.append({"kind": "dir", "schema": sd, "cdefs": cd, "vardefs": vd, "dirs": dirs, "raw": raw,
+                        "label": "corpus-directive", "pos": pos})
     # open findings pinned by the test-suite
     val(G.N("Int"), "12", "numeric-string-for-number")
     val(G.N("Float"), "1.5", "numeric-string-for-number")
@@ -392,6 +430,89 @@ def _abs_case(rng, sd):
             "raw": raw, "label": label}
 
 
+def _dir_case(rng, sd):
+    names = ["Int", "Float", "String", "ID", "Boolean", "Any1", "Tag"] + [
+        td["name"] for td in sd["types"] if td["kind"] in ("enum", "input")]
+    shapes = G.type_shapes(1)
+    cdefs, vdefs, raw, dirs = [], [], {}, []
+    label = "directive"
+    parts = []
+    for i in range(rng.choice([1, 2, 2, 3])):
+        t = rng.choice(shapes)(rng.choice(names))
+        a = {"name": rng.choice(["a", "limit", "fmt", "inputValue"]) + str(i), "type": t, "default": None}
+        a["py"] = a["name"] if rng.random() < 0.4 else "py_" + a["name"].lower()
+        if rng.random() < 0.4:
+            dj = G.gen_json(rng, sd, t, 1, None)
+            if not (dj is None and t[1]):
+                a["default"] = [G.internal_of(sd, t, dj)]
+        cdefs.append(a)
+        mode = rng.choice(["omit", "lit", "lit", "var"])
+        wrong = rng.random() < 0.2
+        lab = rng.choice(G.WRONG_LABELS) if wrong else None
+        plan = G.Plan(rng, lab) if wrong else None
+        j = G.gen_json(rng, sd, t, 2, plan)
+        planted = wrong and not plan.armed
+        if mode == "lit":
+            parts.append("%s: %s" % (a["name"], G.lit_text(sd, t, j)))
+            if planted:
+                label = lab
+        elif mode == "var":
+            vn = "v%d" % i
+            vdefs.append("$%s: %s" % (vn, G.ty_text(t)))
+            parts.append("%s: $%s" % (a["name"], vn))
+            r = rng.random()
+            if r < 0.7:
+                raw[vn] = j
+                if planted:
+                    label = lab
+            elif r < 0.8:
+                raw[vn] = None
+    if rng.random() < 0.8:
+        dirs.append("@custom" + (("(" + ", ".join(parts) + ")") if parts else ""))
+    else:
+        vdefs, raw = [], {}
+        if label != "directive":
+            label = "directive"
+
+    def cond(dname, k):
+        r = rng.random()
+        if r < 0.45:
+            return "@%s(if: %s)" % (dname, rng.choice(["true", "false"]))
+        if r < 0.8:
+            vn = "b%d" % k
+            kind = rng.choice(["nn", "nn", "nullable", "defaulted"])
+            vdefs.append("$%s: %s" % (vn, {"nn": "Boolean!", "nullable": "Boolean",
+                                          "defaulted": "Boolean = %s" % rng.choice(["true", "false"])}[kind]))
+            rr = rng.random()
+            if kind == "nn" or rr < 0.6:
+                raw[vn] = rng.choice([True, False])
+            elif rr < 0.8:
+                raw[vn] = None
+            return "@%s(if: $%s)" % (dname, vn)
+        return rng.choice(["@%s(if: 1)", "@%s", "@%s(if: null)", '@%s(if: "true")', "@%s(if: [true])"]) % dname
+
+    for k, dname in enumerate(["skip", "include"]):
+        if rng.random() < 0.5:
+            dirs.append(cond(dname, k))
+    if dirs and rng.random() < 0.15:
+        # the same directive twice (find_one takes the first); invalid for the
+        # validator, observable on unvalidated requests
+        d0 = rng.choice(dirs)
+        dname = d0[1:].split("(")[0]
+        dirs.append("@custom" if dname == "custom" else "@%s(if: %s)" % (dname, rng.choice(["true", "false"])))
+    rng.shuffle(dirs)
+    return {"kind": "dir", "schema": sd, "cdefs": cdefs,
+            "vardefs": ("(" + ", ".join(vdefs) + ")") if vdefs else "",
+            "dirs": dirs, "raw": raw, "label": label, "pos": rng.choice(["root", "root", "nested"])}
+
+
+def _dir_query(case):
+    body = "{ f %s other }" % " ".join(case["dirs"])
+    if case.get("pos") == "nested":
+        body = "{ parent %s }" % body
+    return "query Q%s %s" % (case["vardefs"], body)
+
+
 def _abs_query(case):
     """the one field node g(call), placed on the interface-typed list or
     (through a fragment on the interface) on the union-typed list"""
@@ -454,6 +575,8 @@ def generate(rng, tier):
             cases.append(_exec_case(rng, sd))
         for _ in range(40 if quick else 400):
             cases.append(_abs_case(rng, sd))
+        for _ in range(50 if quick else 500):
+            cases.append(_dir_case(rng, sd))
     # value grid over the fixed schema: exhaustive for depth <= 2 in the thorough tier
     grid = list(_grid(fixed, 2))
     if quick:
@@ -554,6 +677,86 @@ def _abs_request(b, case, doc, **kw):
     return {"items": items}
 
 
+def _dir_request(b, doc, raw, nested=False, **kw):
+    del b.calls[:]
+    del b.others[:]
+    try:
+        res = graphql_blocking(b.schema, doc, variables=raw, **kw)
+    except Exception as e:  # noqa
+        # nothing may escape the entry point, a CoercionError from
+        # _skip_selection included (fix C10-05)
+        return {"crash": "raised:" + type(e).__name__, "msg": str(e)[:200]}
+    errs = list(res.errors or [])
+    if errs and all(isinstance(e, ValidationError) for e in errs):
+        return {"validation": len(errs), "called": len(b.calls) + len(b.others)}
+    if errs and all(isinstance(e, VariableCoercionError) for e in errs):
+        return {"rej": 3, "called": len(b.calls) + len(b.others)}
+    data = res.data
+    sel = data.get("parent") if (nested and data is not None) else data
+    if len(b.calls) > 1:
+        return {"crash": "resolver-called-%d-times" % len(b.calls)}
+    if not b.calls:
+        if not errs:
+            if sel is None or "f" in sel or sel.get("other") != 2:
+                return {"crash": "unexpected-result", "msg": str(data)[:200]}
+            return {"skip": {"ok": True}}
+        # invalid @skip / @include arguments: the selection set is rejected as a
+        # whole before any of its resolvers runs -- root: data None; nested:
+        # the enclosing field is null with the one error at its path
+        if len(errs) == 1 and isinstance(errs[0], CoercionError):
+            path = list(getattr(errs[0], "path", None) or [])
+            shape_ok = ((data == {"parent": None} and path == ["parent"]) if nested
+                        else (data is None and path == []))
+            if not shape_ok:
+                return {"crash": "rejection-misreported", "msg": ("data=%r path=%r" % (data, path))[:200]}
+            return {"skip": {"rej": 1}, "called": len(b.others)}
+        return {"crash": "unexpected-result", "msg": str([type(e).__name__ for e in errs])[:200]}
+    tag, val = b.calls[0]
+    if tag == "ok":
+        if errs or sel is None or sel.get("f") != 1:
+            return {"crash": "unexpected-errors", "msg": str([type(e).__name__ for e in errs])[:200]}
+        try:
+            json.dumps(val)
+        except (TypeError, ValueError):
+            return {"crash": "not-json-able"}
+        return {"skip": {"ok": False}, "custom": {"ok": val}}
+    if isinstance(val, CoercionError) and len(errs) == 1 and isinstance(errs[0], CoercionError):
+        return {"skip": {"ok": False}, "custom": {"rej": 1}}
+    return {"crash": type(val).__name__, "msg": str(val)[:200]}
+
+
+def _run_sdl(b, text):
+    got = []
+
+    class Custom(SchemaDirective):
+        definition = b.custom
+
+        def __init__(self, args=None):
+            got.append(args)
+
+    try:
+        build_schema("type Query %s { f: Int }" % text, schema_directives=[Custom])
+    except Exception as e:  # noqa
+        return _exc(e)
+    if len(got) != 1:
+        return {"crash": "schema-directive-applied-%d-times" % len(got)}
+    return {"ok": got[0]}
+
+
+def _run_dir(case):
+    b = _built_dir(case)
+    doc = parse(_dir_query(case))
+    op = doc.definitions[0]
+    obs = {"vars": _call(lambda: coerce_variable_values(b.schema, op, case["raw"]))}
+    nested = case.get("pos") == "nested"
+    obs["exec"] = _dir_request(b, doc, case["raw"], nested, validators=[])
+    obs["validated"] = _dir_request(b, doc, case["raw"], nested)
+    custom = [d for d in case["dirs"] if d.startswith("@custom")]
+    if custom and "$" not in custom[0]:
+        obs["sdl"] = _run_sdl(b, custom[0])
+    return obs
+
+
 def _run_abs(case):
     b = _built_abs(case)
     doc = parse(_abs_query(case))
@@ -581,6 +784,8 @@ def run_impl(case):
         return {"r": _call(lambda: value_from_ast(node, b.ty(case["type"]), case["vars"]))}
     if k == "abs":
         return _run_abs(case)
+    if k == "dir":
+        return _run_dir(case)
     b = _built(sd, case["args"])
     doc = parse(case["query"])
     op = doc.definitions[0]
@@ -651,7 +856,32 @@ def _abs_term(case, obs):
         ser.clist(node.arguments, ser.carg), raw, _cobs(obs["vars"]), items)
 
 
+def _dir_term(case, obs):
+    doc = parse(_dir_query(case))
+    op = doc.definitions[0]
+    node = op.selection_set.selections[0]
+    if case.get("pos") == "nested":
+        node = node.selection_set.selections[0]
+    raw = ser.clist(list(case["raw"].items()), lambda kv: "(%s, %s)" % (ser.cstr(kv[0]), G.cjson(kv[1])))
+    ex = obs["exec"]
+    if "skip" in ex:
+        sk = ex["skip"]
+        oskip = "(Some %s)" % ("(OOk (PBool %s))" % ser.cbool(sk["ok"]) if "ok" in sk else "(ORej 1)")
+        ocustom = ("(Some %s)" % _cobs(ex["custom"])) if "custom" in ex else "None"
+    elif ex.get("rej") == 3 and not ex.get("called"):
+        oskip, ocustom = "None", "None"
+    else:
+        oskip, ocustom = "(Some OCrash)", "None"
+    osdl = ("(Some %s)" % _cobs(obs["sdl"])) if "sdl" in obs else "None"
+    return "(CaseDir %s %s %s %s %s %s %s %s %s)" % (
+        _schema_ref(case["schema"]), ser.clist(case["cdefs"], G.cfield),
+        ser.clist(op.variable_definitions, ser.cvardef), ser.cdirs(node.directives), raw,
+        _cobs(obs["vars"]), oskip, ocustom, osdl)
+
+
 def to_coq(case, obs):
+    if case["kind"] == "dir":
+        return _dir_term(case, obs)
     if case["kind"] == "abs":
         return _abs_term(case, obs)
     if case["kind"] in ("val", "lit"):
@@ -672,6 +902,8 @@ _KF = {"numeric-string-for-number", "number-for-string"}
 
 
 def nontrivial(case, obs):
+    if case["kind"] == "dir":
+        return bool(case["dirs"])
     if case["kind"] == "abs":
         # one node really resolved against at least two different definitions
         ex = obs.get("exec", {})
@@ -695,6 +927,8 @@ def classify(case, obs):
         return "literal-route:" + lab, None
     if case["kind"] == "abs":
         return "resolver-kwargs-per-concrete-type:" + lab, None
+    if case["kind"] == "dir":
+        return "directive-arguments:" + lab, None
     return "resolver-kwargs:" + lab, None
 
 
@@ -732,8 +966,36 @@ def _abs_checks(case, obs):
     return out
 
 
+def _dir_checks(case, obs):
+    out = []
+    ex, va = obs["exec"], obs["validated"]
+    for name in ("vars", "exec", "validated", "sdl"):
+        if name in obs and "crash" in obs[name]:
+            out.append(("raises-only-documented-errors (%s): %s" % (name, obs[name]["crash"]), None))
+    if "validation" in va:
+        if va["called"]:
+            out.append(("rejected-before-any-resolver-runs", None))
+    elif va != ex:
+        out.append(("validated-and-unvalidated-requests-give-same-directive-arguments", None))
+    for r in (ex, va):
+        if "rej" in r.get("skip", {}) and r.get("called"):
+            out.append(("rejected-before-any-resolver-of-the-selection-runs", None))
+    # the same application as a schema directive gives the same arguments
+    if "sdl" in obs and "custom" in ex and "crash" not in obs["sdl"]:
+        a, b = obs["sdl"], ex["custom"]
+        if ("ok" in a) != ("ok" in b) or a.get("ok") != b.get("ok"):
+            out.append(("schema-directive-and-query-directive-arguments-agree", None))
+    if case.get("label") in _MUST_REJECT and "ok" in va.get("custom", {}):
+        out.append(("structurally-wrong-rejected:" + case["label"], None))
+    if case.get("label") in _KF and "ok" in va.get("custom", {}):
+        out.append(("structurally-wrong-rejected:" + case["label"], case["label"]))
+    return out
+
+
 def direct_checks(case, obs):
     out = []
+    if case["kind"] == "dir":
+        return _dir_checks(case, obs)
     if case["kind"] == "abs":
         return _abs_checks(case, obs)
     if case["kind"] != "exec":
@@ -807,6 +1069,8 @@ def extra_evidence(cases, obss):
         r = o.get("r") or o.get("exec")
         if c["kind"] == "abs":
             r = {"ok": 1} if "items" in r else r
+        if c["kind"] == "dir":
+            r = r["skip"] if "skip" in r else r
         key = c["kind"] + ":" + ("ok" if "ok" in r else "rej%s" % r["rej"] if "rej" in r else "crash")
         outcomes[key] = outcomes.get(key, 0) + 1
     types = {json.dumps(c["type"]) for c in cases if "type" in c}
@@ -818,7 +1082,38 @@ def extra_evidence(cases, obss):
         "requests_reaching_resolver": sum(1 for o in obss if "ok" in o.get("exec", {})),
         "schemas": len({json.dumps(c["schema"], sort_keys=True) for c in cases}),
         "abstract_requests": _abs_stats(cases, obss),
+        "directive_requests": _dir_stats(cases, obss),
     }}
+
+
+def _dir_stats(cases, obss):
+    st = {"requests": 0, "with_custom": 0, "with_skip_or_include": 0, "field_skipped": 0,
+          "field_resolved": 0, "custom_args_ok": 0, "custom_absent_none": 0, "custom_rejected": 0,
+          "skip_include_rejected_in_result": 0, "nested_position": 0, "rejected_although_validated": 0,
+          "raised_although_validated": 0, "raised_unvalidated": 0,
+          "schema_directive_applications": 0, "rejected_by_validation": 0}
+    for c, o in zip(cases, obss):
+        if c["kind"] != "dir":
+            continue
+        st["requests"] += 1
+        st["with_custom"] += any(d.startswith("@custom") for d in c["dirs"])
+        st["with_skip_or_include"] += any(not d.startswith("@custom") for d in c["dirs"])
+        ex = o.get("exec", {})
+        sk = ex.get("skip", {})
+        st["field_skipped"] += sk.get("ok") is True
+        st["field_resolved"] += sk.get("ok") is False
+        cu = ex.get("custom", {})
+        st["custom_args_ok"] += "ok" in cu and cu["ok"] is not None
+        st["custom_absent_none"] += "ok" in cu and cu["ok"] is None
+        st["custom_rejected"] += "rej" in cu
+        st["skip_include_rejected_in_result"] += "rej" in sk
+        st["nested_position"] += c.get("pos") == "nested"
+        st["rejected_although_validated"] += "rej" in o.get("validated", {}).get("skip", {})
+        st["raised_although_validated"] += str(o.get("validated", {}).get("crash", "")).startswith("raised:")
+        st["raised_unvalidated"] += str(ex.get("crash", "")).startswith("raised:")
+        st["schema_directive_applications"] += "sdl" in o
+        st["rejected_by_validation"] += "validation" in o.get("validated", {})
+    return st
 
 
 def _abs_stats(cases, obss):
